@@ -11,7 +11,9 @@ EXPLANATION = (
     "by / iterated from the `has` parameter (a plain loop or an iterator pipeline whose `filter` tests `has`), and every path of that clean() reaches the walk - only `!needs_drop::<T>()` for the impl's component type T may skip it; every other impl must clear each T-holding container field or delegate to the inner storage's clean on "
     "every path. R2 (forget <-> materialise): a storage without T-holding field passes insert's value to mem::forget on every path and its remove "
     "materialises exactly one T outside any loop; the MaybeUninit storage's remove has exactly one moving read and no destroying primitive, its "
-    "insert writes the value parameter with MaybeUninit::write. R3 (teardown): Drop for MaskedStorage reaches clean() through clear() on every path; "
+    "insert writes the value parameter with MaybeUninit::write. R3 (teardown): Drop for MaskedStorage reaches clean() through clear() on every path; every local struct that owns by value a storage kind "
+    "whose plain drop destroys nothing (MaybeUninit slots, discovered from field types) or the Storage of an arbitrary component is itself a storage "
+    "or has a Drop impl that reaches clean() on every path (type-level query over the ADT and impl tables); "
     "Storage::clear delegates to it; Drop for LazyUpdate pops its queue until None. R4 (confinement): calls of ownership-escaping primitives "
     "(ptr::read/write, mem::forget, ManuallyDrop, assume_init*, set_len, zeroed, transmute, drop_in_place) occur only in storage impls, the cell "
     "wrapper, Generation constructors and not_present_insert; a site elsewhere is reported as undetermined (needs an obligation). R5 (a slot is "
@@ -257,6 +259,7 @@ def r3(ctx, facts):
         cl = [bb for bb, t in b.calls() if t["callee"].get("path") == US + "::clean"]
         ok, _ = b.must_pass(0, cl) if cl else (False, None)
         ctx.ob("C08-R3", "MaskedStorage::clear -> clean()", ok, b.loc(), "" if ok else "clear() does not reach clean() on every path")
+    r3_owners(ctx, facts)
     from . import c09
     dr = [b for b in facts.bodies if b.trait_item == "std::ops::Drop::drop" and b.self_ty == "world::lazy::LazyUpdate"]
     ctx.anchor("C08-R3", "Drop for LazyUpdate", dr)
@@ -265,6 +268,72 @@ def r3(ctx, facts):
         ves = b.variant_edges(lambda so: so[0] == "call" and so[1] in pops) if pops else []
         ok = bool(pops) and all(b.in_loop(p) for p in pops)
         ctx.ob("C08-R3", "Drop for LazyUpdate pops until the queue is empty", ok, b.loc(), "" if ok else "queued boxed values would be leaked on drop")
+
+
+def _leaky_storages(facts):
+    """storage kinds whose plain drop destroys no component: a local UnprotectedStorage type that keeps components in MaybeUninit
+    slots (a MaybeUninit<..> field type mentioning a type parameter) - only clean(mask) knows which slots are alive"""
+    import re
+    out = {}
+    for i in facts.impls_of(US):
+        st = base_ty(i.get("self_ty") or "")
+        adt = facts.adts.get(st)
+        if not adt or not adt.get("variants"):
+            continue
+        for f in adt["variants"][0]["fields"]:
+            for m in re.finditer(r"MaybeUninit<", f["ty"]):
+                depth, j = 1, m.end()
+                while j < len(f["ty"]) and depth:
+                    depth += {"<": 1, ">": -1}.get(f["ty"][j], 0)
+                    j += 1
+                inner = f["ty"][m.end():j - 1]
+                if re.search(r"(?<![:\w])[A-Z]\w*(?![:\w])", inner):
+                    out[st] = f["name"]
+    return out
+
+
+def r3_owners(ctx, facts):
+    """Whoever owns such a storage by value must clean it: every local struct with a field of a leaky storage kind (or of the
+    `<T as Component>::Storage` of an arbitrary component) is either itself a storage (its clean() delegates, C08-R1, and ITS
+    owner is held to this rule) or has a Drop impl that reaches UnprotectedStorage::clean on every path."""
+    leaky = _leaky_storages(facts)
+    ctx.floor("C08-R3", "storage kinds that need clean() to destroy their values", len(leaky), 1)
+    storages = {base_ty(i.get("self_ty") or "") for i in facts.impls_of(US)}
+    owners = 0
+    for path, adt in sorted(facts.adts.items()):
+        if not adt.get("variants") or adt.get("kind") not in ("Struct", "Enum"):
+            continue
+        for v in adt["variants"]:
+            for f in v["fields"]:
+                bt = base_ty(f["ty"])
+                anyst = f["ty"].endswith("world::comp::Component>::Storage")
+                if bt not in leaky and not anyst:
+                    continue
+                if f["ty"].lstrip().startswith(("&", "*")):
+                    continue
+                owners += 1
+                if path in storages:
+                    continue
+                dp = adt.get("drop")
+                db = [b for b in facts.bodies if b.path == dp] if dp else []
+                ok, why = False, "`%s` owns a %s in field `%s` and has no Drop impl: when it is dropped (or moved out of and dropped) non-empty, the values in the " \
+                                 "slots are neither handed back nor destroyed" % (path, bt if bt in leaky else "component storage", f["name"])
+                def reaches_clean(b, depth=0):
+                    """every path of b passes a call of clean(), directly or through crate functions all of whose targets do"""
+                    cl = []
+                    for bb, t in b.calls():
+                        if t["callee"].get("path") == US + "::clean":
+                            cl.append(bb)
+                            continue
+                        tg = [x for x in facts.targets(t["callee"])] if depth < 3 else []
+                        if tg and all(x.trait_item == US + "::clean" or (x is not b and reaches_clean(x, depth + 1)) for x in tg):
+                            cl.append(bb)
+                    return bool(cl) and b.must_pass(0, cl)[0]
+                for b in db:
+                    ok = reaches_clean(b)
+                    why = "" if ok else "Drop for `%s` does not reach clean() of its storage on every path" % path
+                ctx.ob("C08-R3", "owner %s.%s cleans the storage it owns" % (path, f["name"]), ok, db[0].loc() if db else "", why)
+    ctx.floor("C08-R3", "owners of storages that need clean()", owners, 1)
 
 
 def allowed_site(b):
